@@ -306,7 +306,7 @@ def main(tier):
                         "invalid UTF-8 cannot be submitted through the &str API: bytes are lossy-decoded first",
                         "mutable and immutable vectors are identified in the write/read comparison"]
     if rep.coverage["evaluations"] < 5000:
-        rep.inconclusive_note("fewer than 5000 texts/data observed")
+        rep.inconclusive_note("fewer than 5000 texts/data observed", floor=True)
     return rep.finish()
 
 
